@@ -167,6 +167,7 @@ type FnCtx struct {
 	reqStart, reqEnd int          // assertions [reqStart, reqEnd) are the function's preconditions
 	spawned     []map[string]bool // write sets of goroutines started without a contract (havoc'd at spawn and at every Wait)
 	beforeHits  map[int]bool      // before-clauses (by index) that matched at least one call site
+	ghostHits   map[string]bool   // ghost bindings (by key) that met their call site
 }
 
 func newFnCtx(e *Engine, fn *ssa.Function, spec *FuncSpec) *FnCtx {
@@ -196,7 +197,9 @@ func (fc *FnCtx) define(t Term) { // unconditional definitional assertion
 
 // name a term by a fresh constant to keep formulas small.
 func (fc *FnCtx) nameTerm(prefix string, t Term) Term {
-	if len(t.S) < 40 {
+	// an if-then-else is named however short it is: it may end up inside a quantifier pattern, where
+	// the solvers do not accept it
+	if len(t.S) < 40 && !strings.HasPrefix(t.S, "(ite ") {
 		return t
 	}
 	c := fc.fresh(prefix, t.Sort)
@@ -860,7 +863,7 @@ func (fc *FnCtx) lazyCellInit(st *State, k cellKey) (Val, bool) {
 		if strings.HasPrefix(v, "sent:") || strings.HasPrefix(v, "closed:") || strings.HasPrefix(v, "recvd:") {
 			return intLit(0), true
 		}
-		if strings.HasPrefix(v, "ctxdone:") || strings.HasPrefix(v, "called:") {
+		if strings.HasPrefix(v, "ctxdone:") || strings.HasPrefix(v, "called:") || strings.HasPrefix(v, "sawempty:") {
 			return tFalse, true
 		}
 		if g, ok := fc.eng.ghosts[v]; ok {
@@ -1348,6 +1351,7 @@ func (fc *FnCtx) havocLoop(fr *Frame, st *State, li *loopInfo) {
 			if x.Op == token.ARROW {
 				if k := fc.recvKey(x.X); k != "" {
 					special[cellKey{0, "recvd:" + k}] = true
+					special[cellKey{0, "sawempty:" + k}] = true
 				}
 			}
 		case *ssa.Select:
@@ -1360,6 +1364,7 @@ func (fc *FnCtx) havocLoop(fr *Frame, st *State, li *loopInfo) {
 					// the receive counter of a channel read inside the loop becomes unknown (and only grows)
 					if k := fc.recvKey(s.Chan); k != "" {
 						special[cellKey{0, "recvd:" + k}] = true
+						special[cellKey{0, "sawempty:" + k}] = true
 					}
 				}
 			}
@@ -1523,6 +1528,10 @@ func (fc *FnCtx) havocLoop(fr *Frame, st *State, li *loopInfo) {
 				if old, has := st.cells[k].(Term); has {
 					st.cells[k] = fc.fresh("visited", old.Sort)
 				}
+			}
+			if strings.HasPrefix(name, "sawempty:") {
+				// what the loop last learnt about the channel is unknown at its head
+				st.cells[k] = fc.fresh("sawempty", SBool)
 			}
 			if strings.HasPrefix(name, "recvd:") {
 				old, has := st.cells[k].(Term)
